@@ -428,6 +428,30 @@ def build_unit(template_path, repo_root, vacuity=False):
                 out.append(ln)
         return out
     tl = load(template_path)
+    # conditional sections: //@IFPRESENT <file> | <regex> ... //@ELSE ... //@ENDIF  (rule A3: which model of the start-up
+    # validation applies is read off the source; recorded in the evidence)
+    sel, keep_stack = [], []
+    for ln in tl:
+        mi = re.match(r'^\s*//@IFPRESENT\s+(.*)$', ln)
+        if mi:
+            parts = [x.strip() for x in mi.group(1).split('|')]
+            rel, rx = parts[0], '|'.join(parts[1:])
+            present = bool(re.search(rx, ex.src(rel).m))
+            ex.records.append(dict(kind='conditional-anchor', name=rx, file=rel, lines=[0, 0], sha256='',
+                                   rules=[('A3', 'present' if present else 'absent', rx)]))
+            keep_stack.append([present, present])
+            continue
+        if re.match(r'^\s*//@ELSE\s*$', ln):
+            keep_stack[-1][1] = not keep_stack[-1][0]
+            continue
+        if re.match(r'^\s*//@ENDIF\s*$', ln):
+            keep_stack.pop()
+            continue
+        if all(k[1] for k in keep_stack):
+            sel.append(ln)
+    if keep_stack:
+        raise ExtractError(f'{template_path}: unterminated //@IFPRESENT')
+    tl = sel
     out_lines = []
     table = []
     fns = []
@@ -550,6 +574,14 @@ def build_unit(template_path, repo_root, vacuity=False):
             table.append(dict(kind='tmpl', line=i + 1))
             ex.records.append(dict(kind='constlen', name=name, file=rel, lines=[S.line_of(start), S.line_of(end - 1)],
                                    sha256=hashlib.sha256(raw.encode()).hexdigest(), rules=[('E4', 'byte-string literal length', str(n))]))
+            i += 1
+        elif d == 'PRESENT':
+            # anchor: the unit's model of start-up validation relies on this text being present in the source
+            rel, rx = parts[0], '|'.join(parts[1:])
+            S = ex.src(rel)
+            if not re.search(rx, S.m):
+                raise ExtractError(f'{rel}: anchor `{rx}` is no longer present; the unit {os.path.basename(template_path)} must be revised (undecided, not a violation)')
+            ex.records.append(dict(kind='present-anchor', name=rx, file=rel, lines=[0, 0], sha256='', rules=[('A2', 'anchor present', rx)]))
             i += 1
         elif d == 'ABSENT':
             # anchor: the unit's model of "what the tracker validates at start-up" is only right while this text is absent
